@@ -30,4 +30,23 @@ let handle (_cf : cfg) (line : string) : string option =
       let has = (match (!st).sb_scratch with Some _ -> true | None -> false) in
       Buffer.add_string out (Printf.sprintf "live=%d scratch=%s" (List.length (!st).sb_pool + (if has then 1 else 0)) (if has then "yes" else "-"));
       Some (Buffer.contents out)
+  | "SBF" :: hdr :: mx :: answers :: ops ->
+      let g = { s_hdr = n_of_int (int_of_string hdr); s_max = n_of_int (int_of_string mx) } in
+      let ans = ref (if answers = "-" then [] else List.init (String.length answers) (fun i -> answers.[i] = '1')) in
+      let st = ref bf_init in
+      let out = Buffer.create 4096 in
+      List.iter (fun op ->
+        if op <> "" then begin
+          let body = String.sub op 1 (String.length op - 1) in
+          let o = if op.[0] = 's' then SStore (bytes_of_hex body) else SDeref (bytes_of_hex body) in
+          let (((st', ans'), evs), r) = bf_step g !st !ans o in
+          st := st'; ans := ans';
+          let rs = match r with
+            | Some x -> Printf.sprintf "%d:%d:%s" (int_of_n x.n_len) (int_of_n x.n_refs) (hex_of_bytes (n_content x))
+            | None -> if op.[0] = 's' then "NoMemory" else "-" in
+          Buffer.add_string out (Printf.sprintf "%s/%s " rs (String.concat "," (List.map ev_string evs)))
+        end) ops;
+      let has = (match (!st).bf_node with Some _ -> true | None -> false) in
+      Buffer.add_string out (Printf.sprintf "live=%d scratch=%s" (List.length (!st).bf_pool + (if has then 1 else 0)) (if has then "yes" else "-"));
+      Some (Buffer.contents out)
   | _ -> None
